@@ -1,0 +1,110 @@
+//go:build verif
+
+package amp
+
+// Machine-checked contracts (read by /verif/engine; comment-only, compiled only with -tags verif).
+//
+// ---- AMP armor encoder (C10): shape of the pre elements ----
+// Ghost accounting of what elementEncoder has written into the currently open pre element:
+//   text  bytes of element text so far (0: no element is open), counting the newline after <pre> and every separator
+//   word  bytes written since the last whitespace byte
+// The bounds of the property are literals here (32-byte words, 32 KiB of text per element), not the package constants.
+//@ default model int
+//@ ghost field elementEncoder.text int
+//@ ghost field elementEncoder.word int
+//@ pred eeInv(enc *elementEncoder) = 0 <= enc.chunkCounter && enc.chunkCounter < 32 && 0 <= enc.elementCounter && enc.elementCounter < 992 && enc.word == enc.chunkCounter && enc.text == ite(enc.elementCounter == 0 && enc.chunkCounter == 0, 0, 1 + 33*enc.elementCounter + enc.chunkCounter)
+//
+//@ func (enc *elementEncoder) Write(p []byte) (n int, err error)
+//@   props C10
+//@   requires enc != nil && enc.w != nil && eeInv(enc)
+//@   assumes len(p) <= 1<<40
+//@   loop 1 invariant eeInv(enc) && total >= 0 && len(p) <= entry(len(p)) && total <= 9*(entry(len(p)) - len(p))
+//@   at call Write#1 assert {opens-only-when-closed} enc.text == 0
+//@   at call Write#1 ghost enc.text = 1
+//@   at call Write#2 assert {words-of-at-most-32-bytes} enc.word + len(arg0) <= 32
+//@   at call Write#2 assert {at-most-32KiB-of-text-per-element} enc.text >= 1 && enc.text + len(arg0) + 1 <= 32*1024
+//@   at call Write#2 ghost enc.text = enc.text + len(arg0)
+//@   at call Write#2 ghost enc.word = enc.word + len(arg0)
+//@   at call Write#3 ghost enc.text = enc.text + 1
+//@   at call Write#3 ghost enc.word = 0
+//@   at call Write#4 assert {closes-a-full-element-at-a-word-boundary} enc.word == 0 && enc.text <= 32*1024
+//@   at call Write#4 ghost enc.text = 0
+//@   ensures err == nil ==> eeInv(enc)
+//
+// Close: an open element is terminated (after a separator if a word is in progress), nothing is written otherwise.
+// (eeInv holds after every successful Write, proved above; the Writes that precede Close are made by encoding/base64,
+// outside the verified code, so it is taken as an assumption here)
+//@ func (enc *elementEncoder) Close() (err error)
+//@   props C10
+//@   requires enc != nil && enc.w != nil
+//@   assumes eeInv(enc)
+//@   ensures calls(Write) == ite(enc.text == 0, 0, 1)
+//@   at call Write#1 assert {terminates-an-open-element} enc.text != 0 && enc.word == 0
+//@   at call Write#2 assert {separator-then-terminator} enc.text != 0 && enc.word != 0 && enc.text + 1 <= 32*1024
+//
+// The armor: boilerplate first, then the version byte '0' as the first element text (outside base64); Close flushes
+// base64, then closes the element, then writes the trailer - in that order.
+//@ func NewArmorEncoder(w io.Writer) (r io.WriteCloser, err error)
+//@   props C10
+//@   requires w != nil
+//@   ensures (err == nil) <==> (r != nil)
+//@   at call Write#1 assert {boilerplate-first} calls(Write) == 0
+//   (a new elementEncoder has written nothing: its ghost accounting starts at zero)
+//@   at call Write#2 ghost arg0.text = 0
+//@   at call Write#2 ghost arg0.word = 0
+//@   at call Write#2 assert {version-byte} len(arg1) == 1 && arg1[0] == 48
+//
+//@ immutable armorEncoder.w
+//@ immutable armorEncoder.element
+//@ immutable armorEncoder.base64
+//@ immutable elementEncoder.w
+//@ func (enc *armorEncoder) Close() (err error)
+//@   props C10
+//@   requires enc != nil && enc.base64 != nil && enc.element != nil && enc.element.w != nil && enc.w != nil
+//@   at call Close#2 assert {base64-flushed-before-the-element-is-closed} calls(Close) == 1
+//@   at call Write assert {trailer-last} calls(Close) == 2
+//
+// ---- AMP armor decoder (C10) ----
+// isASCIIWhitespace is exactly the five code points of https://infra.spec.whatwg.org/#ascii-whitespace.
+//@ spec func ws(b byte) bool = b == 9 || b == 10 || b == 12 || b == 13 || b == 32
+//@ func isASCIIWhitespace(b byte) (r bool)
+//@   props C10
+//@   ensures r == ws(b)
+//
+// splitASCIIWhitespace as a bufio.SplitFunc, for every input: it never advances beyond the data, a token is a maximal
+// run of non-whitespace bytes of the data preceded only by whitespace, and it is only returned once its end is known
+// (a whitespace byte follows, or the input ended). So the sequence of tokens depends on the words alone, not on which
+// or how many whitespace bytes separate them, nor on how the input is cut into reads.
+//@ func splitASCIIWhitespace(data []byte, atEOF bool) (advance int, token []byte, err error)
+//@   props C10
+//@   loop 1 invariant 0 <= i && i <= len(data) && (forall k int :: 0 <= k && k < i ==> ws(data[k]))
+//@   loop 2 invariant 0 <= i && i <= j && j <= len(data) && (forall k int :: 0 <= k && k < i ==> ws(data[k])) && (forall k int :: i <= k && k < j ==> !ws(data[k])) && (i < len(data) ==> !ws(data[i]))
+//@   ensures {never-fails} err == nil
+//@   ensures {within-the-data} 0 <= advance && advance <= len(data)
+//@   ensures {token-is-a-word-of-the-data} token != nil ==> token.base == data.base && 0 <= token.off - data.off && len(token) >= 1 && token.off - data.off + len(token) <= advance && (forall k int :: token.off - data.off <= k && k < token.off - data.off + len(token) ==> !ws(data[k]))
+//@   ensures {only-whitespace-is-skipped} token != nil ==> (forall k int :: 0 <= k && k < token.off - data.off ==> ws(data[k]))
+//@   ensures {word-is-complete} token != nil ==> (advance == token.off - data.off + len(token) + 1 && ws(data[advance-1])) || (atEOF && advance == len(data) && advance == token.off - data.off + len(token))
+//@   ensures {no-token-means-only-whitespace-consumed} token == nil ==> (forall k int :: 0 <= k && k < advance ==> ws(data[k])) && (forall k int :: advance <= k && k < len(data) ==> !ws(data[k])) && (!atEOF || advance == len(data))
+//
+// decodeToWriter: the tokenizer's buffer is bounded (32 KiB) before the first token is requested; only text inside a
+// pre element reaches the base64 layer; nested, stray and unterminated pre elements are errors.
+//@ func decodeToWriter(w io.Writer, r io.Reader) (total int64, err error)
+//@   props C10
+//@   flag nooverflow (fewer than 2^63 bytes are decoded)
+//@   requires w != nil && r != nil
+//@   at call SetMaxBuf assert {buffer-bound-is-32KiB} arg1 == 32*1024 && calls(Next) == 0
+//@   at call Next assert {bounded-before-the-first-token} calls(SetMaxBuf) == 1
+//@   loop 1 invariant calls(SetMaxBuf) == 1
+//@   loop 2 invariant calls(SetMaxBuf) == 1 && active
+//@   at call Write assert {only-text-inside-pre-is-decoded} active
+//
+// NewArmorDecoder: a decoder is returned only for version indicator '0'; every other first byte is ErrUnknownVersion and
+// a failed first read is reported; in both error cases the pipe is closed so that the decoding goroutine cannot park.
+//@ func NewArmorDecoder(r io.Reader) (dec io.Reader, err error)
+//@   props C10
+//@   requires r != nil
+//@   ensures {value-or-error} (err == nil) <==> (dec != nil)
+//   (that the decoder is built only for '0' is the switch itself; the byte read from the pipe is shared with the
+//   decoding goroutine by type, so its value cannot be named in an assertion here)
+//@   ensures {pipe-closed-on-error} err != nil ==> calls(CloseWithError) == 1
+//@   ensures {pipe-open-on-success} err == nil ==> calls(CloseWithError) == 0 && calls(NewDecoder) == 1
